@@ -39,10 +39,10 @@ Section Tok.
   Lemma rs_ok_aset k v rs : ores_ok v -> rs_ok rs -> rs_ok (aset k v rs).
   Proof.
     intros Hv. induction rs as [|[k0 v0] rs IH]; intros H; simpl; [constructor; [exact Hv|constructor]|].
-    inversion H as [|x y H1 H2]; subst. destruct (k =? k0); constructor; auto.
+    inversion H as [|x y H1 H2]; subst. destruct (k =? k0); constructor; [exact Hv|exact H2|exact H1|apply IH; exact H2].
   Qed.
   Lemma rs_ok_aremove k rs : rs_ok rs -> rs_ok (aremove k rs).
-  Proof. intros H. unfold aremove. apply Forall_forall. intros x Hx. apply filter_In in Hx. rewrite Forall_forall in H. apply H, Hx. Qed.
+  Proof. unfold rs_ok. intros H. unfold aremove. apply Forall_forall. intros x Hx. apply filter_In in Hx. rewrite Forall_forall in H. apply H, Hx. Qed.
   Lemma rs_ok_fold_aremove ks : forall rs, rs_ok rs -> rs_ok (fold_left (fun a k => aremove k a) ks rs).
   Proof. induction ks as [|k ks IH]; intros rs H; simpl; [exact H|]. apply IH, rs_ok_aremove, H. Qed.
   Lemma rs_ok_fold_none ts : forall rs, rs_ok rs -> rs_ok (fold_left (fun a k => aset k None a) ts rs).
@@ -52,7 +52,7 @@ Section Tok.
     induction rs as [|[k v] rs IH]; intros acc H Ha; simpl; [exact Ha|].
     inversion H as [|x y H1 H2]; subst. apply IH; [exact H2|apply rs_ok_aset; [exact H1|exact Ha]].
   Qed.
-  Lemma rs_ok_merge : forall resp acc, (forall w rs, In (w, rs) resp -> rs_ok rs) -> rs_ok acc ->
+  Lemma rs_ok_merge : forall (resp : list (wid * list (pid * option res))) acc, (forall w rs, In (w, rs) resp -> rs_ok rs) -> rs_ok acc ->
     rs_ok (fold_left (fun acc e => fold_left (fun a x => aset (fst x) (snd x) a) (snd e) acc) resp acc).
   Proof.
     induction resp as [|[w rs] resp IH]; intros acc H Ha; simpl; [exact Ha|].
@@ -167,7 +167,8 @@ Section Tok.
         assert (Ha1: worker_ok (set_procs w0 (aset p (slice_pr1 pr (o_did o) taken mail') (w_procs w0)))) by (apply wk_set_proc; assumption).
         assert (H2: worker_ok w2).
         { inversion Ha; subst; try exact Ha1.
-          eapply wk_same; [|apply (wk_upd_proc p _ _ (fun pr0 Hp0 => conj (proj1 Hp0) (rs_ok_fold_none ts _ (proj2 Hp0))) Ha1)]. reflexivity. }
+          eapply wk_same; [|apply (wk_upd_proc p (fun q => with_awaiting (fold_left (fun a t => aset t None a) ts (p_awaiting q)) q)); [|exact Ha1]]; [reflexivity|].
+          intros pr0 (Q1&Q2). split; [exact Q1|]. simpl. apply rs_ok_fold_none. exact Q2. }
         assert (H3: worker_ok (if d_park (o_did o) then mark_selecting p w2 else w2)) by (destruct (d_park (o_did o)); exact H2).
         destruct (d_fin (o_did o)) as [r|]; [eapply wk_finish; [exact Hf|exact Hon|exact H3]|].
         destruct Hf as [->| ->]; exact H3.
